@@ -8,7 +8,7 @@ HERE = os.path.dirname(os.path.dirname(os.path.abspath(__file__)))
 
 
 def main():
-    print("| id | what the change does (sub-agent's summary, shortened) | needs to manifest | tests still 176/176 | detected by (quick) | first evaluation |")
+    print("| id | what the change does (sub-agent's summary, shortened) | needs to manifest | tests still 176/176 | detected by (quick tier unless stated) | first evaluation |")
     print("|---|---|---|---|---|---|")
     n = det = nonv = 0
     for d in sorted(glob.glob(os.path.join(HERE, "seeded", "C*"))):
@@ -38,8 +38,8 @@ def main():
                 if "violation class=" in l:
                     first_cls = l.split("violation class=")[1].split(" :: ")[0][:110]
                     break
-        print(f"| {m['id']} | {summ[:170]} | {need[:150]} | {t.get('passed')}/{176} | {', '.join(cur) or '—'} {('`' + first_cls + '`') if first_cls else ''} | {first} |")
-    print(f"\n{n} seeded changes, {nonv} judged not to violate the property as stated, {det} of the other {n - nonv} detected by the registered quick checks.")
+        print(f"| {m['id']} | {summ[:170]} | {need[:150]} | {t.get('passed')}/{176} | {', '.join(c + (' (thorough tier only)' if m['checks'][c].get('tier') == 'thorough' else '') for c in cur) or '—'} {('`' + first_cls + '`') if first_cls else ''} | {first} |")
+    print(f"\n{n} seeded changes, {nonv} judged not to violate the property as stated, {det} of the other {n - nonv} detected by the registered checks (quick tier unless stated).")
 
 
 if __name__ == "__main__":
